@@ -216,7 +216,11 @@ def run(ctx):
     for _ in range(ctx.n(500, 5000)):
         n = ctx.rng.randint(1, 3)
         poly = ctx.rng.random() < 0.3
-        g_rows = gen_sig_rows(ctx.rng, n, ctx.rng.randint(1, 4), poly)
+        big = ctx.rng.random() < 0.03
+        if big:
+            n = 3       # more terms than any blocking factor a vectorised implementation is likely to use
+        g_rows = gen_sig_rows(ctx.rng, n, ctx.rng.randint(34, 44) if big else ctx.rng.randint(1, 4), poly)
+        ctx.count('rcv.many_terms', big)
         ref = [list(a) for a, _ in g_rows] + [r for r, _ in gen_sig_rows(ctx.rng, n, ctx.rng.randint(0, 2), poly)]
         if ctx.rng.random() < 0.4 and len(ref) > 1:
             ref.pop(ctx.rng.randrange(len(ref)))
